@@ -697,4 +697,507 @@ theorem orderedQuery_nolimit {pq : PQ (Item α)} {le : α → α → Bool} {P : 
     exact List.Perm.append (hinner fl (by simp)).1
       (ih (fun g hg => hP g (by simp [hg])) (fun g hg => hinner g (by simp [hg])))
 
+/-! ## Response writer -/
+
+section Accept
+variable {β : Type}
+
+theorem acceptRows_limitReached (lim off : Option Nat) (st : Accept) (h : st.limitReached = true)
+    (rows : List (Option Nat × β)) : acceptRows lim off st rows = [] := by
+  cases rows <;> simp [acceptRows, h]
+
+theorem takeOpt_nil {γ : Type} (l : Option Nat) : takeOpt l ([] : List γ) = [] := by
+  cases l <;> simp [takeOpt]
+
+/-- One row after the duplicate check. -/
+theorem accept_tail_step (lim off : Option Nat) (st : Accept) (hst : st.limitReached = false)
+    (r : Option Nat × β) (rs : List (Option Nat × β)) (D : List (Option Nat × β))
+    (ih : ∀ st' : Accept, st'.limitReached = false → st'.seen = st.seen →
+      acceptRows lim off st' rs = takeOpt (lim.map (· - st'.emitted)) (D.drop (off.getD 0 - st'.skipped))) :
+    (if (acceptTail lim off st).2 then r :: acceptRows lim off (acceptTail lim off st).1 rs
+      else acceptRows lim off (acceptTail lim off st).1 rs)
+    = takeOpt (lim.map (· - st.emitted)) ((r :: D).drop (off.getD 0 - st.skipped)) := by
+  unfold acceptTail
+  by_cases h1 : off.any (fun o => decide (st.skipped < o)) = true
+  · simp only [h1, if_true, Bool.false_eq_true, if_false]
+    rw [ih { st with skipped := st.skipped + 1 } hst rfl]
+    have : off.getD 0 - st.skipped = (off.getD 0 - (st.skipped + 1)) + 1 := by
+      cases off with
+      | none => simp at h1
+      | some o => simp at h1 ⊢; omega
+    rw [this, List.drop_succ_cons]
+  · simp only [h1, if_false, Bool.false_eq_true]
+    have h0 : off.getD 0 - st.skipped = 0 := by
+      cases off with
+      | none => simp
+      | some o => simp at h1 ⊢; omega
+    by_cases h2 : lim.any (fun l => decide (st.emitted ≥ l)) = true
+    · simp only [h2, if_true, Bool.false_eq_true, if_false]
+      rw [acceptRows_limitReached _ _ _ rfl]
+      cases lim with
+      | none => simp at h2
+      | some l =>
+        simp at h2
+        simp [takeOpt, Nat.sub_eq_zero_of_le h2]
+    · simp only [h2, if_false, Bool.false_eq_true, if_true]
+      rw [ih { st with emitted := st.emitted + 1 } hst rfl, h0]
+      simp only [List.drop_zero]
+      cases lim with
+      | none => simp [takeOpt]
+      | some l =>
+        simp at h2
+        have : l - st.emitted = (l - (st.emitted + 1)) + 1 := by omega
+        simp only [takeOpt, Option.map_some]
+        rw [this, List.take_succ_cons]
+
+theorem acceptRows_gen (lim off : Option Nat) : ∀ (rows : List (Option Nat × β)) (st : Accept),
+    st.limitReached = false →
+    acceptRows lim off st rows
+      = takeOpt (lim.map (· - st.emitted)) ((dedupById st.seen rows).drop (off.getD 0 - st.skipped)) := by
+  intro rows
+  induction rows with
+  | nil => intro st _; simp [acceptRows, dedupById, takeOpt_nil]
+  | cons r rs ih =>
+    intro st hst
+    simp only [acceptRows, hst, Bool.false_eq_true, if_false]
+    cases hid : r.1 with
+    | none =>
+      simp only [tryAccept, dedupById, hid]
+      exact accept_tail_step lim off st hst r rs _ (fun st' h1 h2 => by rw [ih st' h1, h2])
+    | some i =>
+      simp only [tryAccept, dedupById, hid]
+      by_cases hc : st.seen.contains i = true
+      · simp only [hc, if_true, Bool.false_eq_true, if_false]
+        exact ih st hst
+      · simp only [hc, if_false, Bool.false_eq_true]
+        exact accept_tail_step lim off { st with seen := i :: st.seen } hst r rs _
+          (fun st' h1 h2 => by rw [ih st' h1, h2])
+
+/-- `try_accept_row` over a whole response: dedup by id, then OFFSET, then LIMIT. -/
+theorem acceptRows_spec (lim off : Option Nat) (rows : List (Option Nat × β)) :
+    acceptRows lim off {} rows = takeOpt lim ((dedupById [] rows).drop (off.getD 0)) := by
+  rw [acceptRows_gen lim off rows {} rfl]
+  cases lim <;> simp
+
+end Accept
+
+
+/-! ## `ScalarValue::compare` on homogeneous columns -/
+
+theorem icmp (a b : Int) : compare a b = if a < b then .lt else if a = b then .eq else .gt := by
+  simp [compare, compareOfLessAndEq]
+
+theorem ncmp (a b : Nat) : compare a b = if a < b then .lt else if a = b then .eq else .gt := by
+  simp [compare, compareOfLessAndEq]
+
+/-- A comparison that is the integer order of a key is a total preorder. -/
+theorem tpo_of_key {α : Type} {cmp : α → α → Ordering} {P : α → Prop} (k : α → Int)
+    (h : ∀ a b, P a → P b → cmp a b = compare (k a) (k b)) : TPO cmp P := by
+  constructor
+  · intro a b ha hb
+    rw [h a b ha hb, h b a hb ha, icmp, icmp]
+    split <;> split <;> (try split) <;> simp_all [Ordering.swap] <;> omega
+  · intro a b c ha hb hc
+    rw [h a b ha hb, h b c hb hc, h a c ha hc, icmp, icmp, icmp]
+    intro h1 h2
+    have e1 : k a ≤ k b := by
+      split at h1
+      · omega
+      · split at h1
+        · omega
+        · simp at h1
+    have e2 : k b ≤ k c := by
+      split at h2
+      · omega
+      · split at h2
+        · omega
+        · simp at h2
+    split
+    · simp
+    · split
+      · simp
+      · omega
+
+theorem cmpBytes_swap : ∀ a b : List Nat, cmpBytes b a = (cmpBytes a b).swap := by
+  intro a
+  induction a with
+  | nil => intro b; cases b <;> simp [cmpBytes, Ordering.swap]
+  | cons x xs ih =>
+    intro b
+    cases b with
+    | nil => simp [cmpBytes, Ordering.swap]
+    | cons y ys =>
+      simp only [cmpBytes]
+      split <;> split <;> (try split) <;> simp_all [Ordering.swap] <;> omega
+
+theorem cmpBytes_trans : ∀ a b c : List Nat, cmpBytes a b ≠ .gt → cmpBytes b c ≠ .gt → cmpBytes a c ≠ .gt := by
+  intro a
+  induction a with
+  | nil => intro b c _ _; cases c <;> simp [cmpBytes]
+  | cons x xs ih =>
+    intro b c h1 h2
+    cases b with
+    | nil => simp [cmpBytes] at h1
+    | cons y ys =>
+      cases c with
+      | nil => simp [cmpBytes] at h2
+      | cons z zs =>
+        simp only [cmpBytes] at h1 h2 ⊢
+        by_cases hxy : x < y
+        · by_cases hyz : y < z
+          · have : x < z := by omega
+            simp [this]
+          · by_cases hzy : z < y
+            · simp [hyz, hzy] at h2
+            · have : x < z := by omega
+              simp [this]
+        · by_cases hyx : y < x
+          · simp [hxy, hyx] at h1
+          · have exy : x = y := by omega
+            subst exy
+            simp only [hxy, if_false] at h1
+            by_cases hxz : x < z
+            · simp [hxz]
+            · by_cases hzx : z < x
+              · simp [hxz, hzx] at h2
+              · simp only [hxz, hzx, if_false] at h2 ⊢
+                exact ih ys zs h1 h2
+
+theorem cmpBytes_tpo : TPO cmpBytes (fun _ => True) :=
+  ⟨fun a b _ _ => cmpBytes_swap a b, fun a b c _ _ _ => cmpBytes_trans a b c⟩
+
+/-- A comparison that is the byte order of a key is a total preorder. -/
+theorem tpo_of_bytes_key {α : Type} {cmp : α → α → Ordering} {P : α → Prop} (k : α → List Nat)
+    (h : ∀ a b, P a → P b → cmp a b = cmpBytes (k a) (k b)) : TPO cmp P := by
+  constructor
+  · intro a b ha hb; rw [h a b ha hb, h b a hb ha]; exact cmpBytes_swap _ _
+  · intro a b c ha hb hc; rw [h a b ha hb, h b c hb hc, h a c ha hc]; exact cmpBytes_trans _ _ _
+
+theorem natDecAux_ne_nil : ∀ (f n : Nat) (acc : List Nat), (f ≠ 0 ∨ acc ≠ []) → natDecAux f n acc ≠ [] := by
+  intro f
+  induction f with
+  | zero => intro n acc h; rcases h with h | h; exact absurd rfl h; simpa [natDecAux] using h
+  | succ f ih =>
+    intro n acc _
+    simp only [natDecAux]
+    split
+    · simp
+    · exact ih _ _ (Or.inr (by simp))
+
+theorem intDec_ne_nil (i : Int) : intDec i ≠ [] := by
+  unfold intDec natDec
+  split
+  · simp
+  · exact natDecAux_ne_nil _ _ _ (Or.inl (by omega))
+
+theorem cmpBytes_nil_left {l : List Nat} (h : l ≠ []) : cmpBytes [] l = .lt := by
+  cases l with
+  | nil => exact absurd rfl h
+  | cons x xs => rfl
+
+theorem cmpBytes_nil_right {l : List Nat} (h : l ≠ []) : cmpBytes l [] = .gt := by
+  cases l with
+  | nil => exact absurd rfl h
+  | cons x xs => rfl
+
+theorem digitsToDec_ne_nil (ds : List Nat) (k : Int) : digitsToDec ds k ≠ [] := by
+  unfold digitsToDec
+  simp only
+  split
+  · simp
+  · split
+    · simp
+    · rename_i h1 h2
+      cases ds with
+      | nil =>
+        simp only [List.map_nil, List.length_nil, Nat.sub_zero, List.nil_append]
+        have : k.toNat ≠ 0 := by omega
+        intro hc
+        have := congrArg List.length hc
+        simp at this
+        omega
+      | cons d ds => simp
+
+theorem f64ToString_ne_nil (b : Nat) : f64ToString b ≠ [] := by
+  unfold f64ToString
+  split
+  · simp
+  · simp only
+    split
+    · simp
+    · split
+      · simp
+      · split
+        · simp
+        · exact digitsToDec_ne_nil _ _
+
+
+def InI64 (i : Int) : Prop := -2 ^ 63 ≤ i ∧ i < 2 ^ 63
+
+/-- A string that none of the numeric / boolean conversions accepts. -/
+def PlainStr (s : List Nat) : Prop :=
+  parseU64 s = none ∧ parseI64 s = none ∧ parseF64 s = none ∧ SV.strBool s = none
+
+inductive ColKind where
+  | int | ts | float | bool | plainStr
+
+/-- Values that reach the comparison for a field of the kind: a value of the type, or Null for a
+    missing key. -/
+def InCol : ColKind → SV → Prop
+  | .int, v => v = .null ∨ ∃ i, v = .int i ∧ InI64 i
+  | .ts, v => v = .null ∨ ∃ i, v = .ts i ∧ InI64 i
+  | .float, v => v = .null ∨ ∃ f, v = .float f ∧ fIsNaN f = false
+  | .bool, v => v = .null ∨ ∃ b, v = .bool b
+  | .plainStr, v => v = .null ∨ ∃ s, v = .utf8 s ∧ PlainStr s
+
+theorem cmp_null_null : SV.compare .null .null = .eq := by decide
+
+theorem cmp_null_left (v : SV) :
+    SV.compare .null v = cmpBytes [] v.toStringRepr := by
+  cases v <;> simp [SV.compare, SV.asU64, SV.asI64, SV.asF64, SV.asBool, SV.asStr, SV.toStringRepr]
+
+theorem cmp_null_right (v : SV) : SV.compare v .null = cmpBytes v.toStringRepr [] := by
+  cases v <;> simp [SV.compare, SV.asU64, SV.asI64, SV.asF64, SV.asBool, SV.asStr, SV.toStringRepr] <;>
+    (try split) <;> simp_all
+
+theorem cmp_int_int (i j : Int) : SV.compare (.int i) (.int j) = compare i j := by
+  simp only [SV.compare, SV.asU64, SV.asI64]
+  by_cases hi : i ≥ 0 <;> by_cases hj : j ≥ 0 <;> simp [hi, hj]
+  rw [ncmp, icmp]
+  split <;> split <;> (try split) <;> (try split) <;> simp_all <;> omega
+
+theorem cmp_ts_ts (i j : Int) : SV.compare (.ts i) (.ts j) = compare i j := by
+  simp only [SV.compare, SV.asU64, SV.asI64]
+  by_cases hi : i ≥ 0 <;> by_cases hj : j ≥ 0 <;> simp [hi, hj]
+  rw [ncmp, icmp]
+  split <;> split <;> (try split) <;> (try split) <;> simp_all <;> omega
+
+theorem cmp_float_float (x y : Nat) (hx : fIsNaN x = false) (hy : fIsNaN y = false) :
+    SV.compare (.float x) (.float y) = compare (fKey x) (fKey y) := by
+  simp [SV.compare, SV.asU64, SV.asI64, SV.asF64, fPartialCmp, hx, hy]
+
+theorem cmp_bool_bool (x y : Bool) :
+    SV.compare (.bool x) (.bool y) = compare (if x then (1 : Int) else 0) (if y then 1 else 0) := by
+  cases x <;> cases y <;> decide
+
+theorem cmp_str_str (s t : List Nat) (hs : PlainStr s) (ht : PlainStr t) :
+    SV.compare (.utf8 s) (.utf8 t) = cmpBytes s t := by
+  obtain ⟨a1, a2, a3, a4⟩ := hs
+  obtain ⟨b1, b2, b3, b4⟩ := ht
+  simp [SV.compare, SV.asU64, SV.asI64, SV.asF64, SV.asBool, SV.asStr, a1, a2, a3, a4, b1, b2, b3, b4]
+
+
+def intKey : SV → Int
+  | .int i => i
+  | .ts i => i
+  | .float f => fKey f
+  | .bool b => if b then 1 else 0
+  | _ => -2 ^ 64
+
+def strKey : SV → List Nat
+  | .utf8 s => s
+  | _ => []
+
+theorem fKey_bound (b : Nat) : -2 ^ 63 < fKey b ∧ fKey b < 2 ^ 63 := by
+  unfold fKey
+  have : b % 2 ^ 63 < 2 ^ 63 := Nat.mod_lt _ (by decide)
+  split <;> omega
+
+/-- `ScalarValue::compare` is a total preorder on every homogeneous typed column (missing keys
+    included): integers, timestamps, floats without NaN, booleans, and strings that none of the
+    numeric / boolean conversions accepts. -/
+theorem compare_tpo_col (c : ColKind) : TPO SV.compare (InCol c) := by
+  cases c with
+  | int =>
+    refine tpo_of_key intKey ?_
+    rintro a b (rfl | ⟨i, rfl, hi⟩) (rfl | ⟨j, rfl, hj⟩)
+    · rw [cmp_null_null]; simp [intKey]
+    · rw [cmp_null_left, SV.toStringRepr, cmpBytes_nil_left (intDec_ne_nil j)]
+      unfold InI64 at hj
+      simp only [intKey, icmp]; rw [if_pos (by omega)]
+    · rw [cmp_null_right, SV.toStringRepr, cmpBytes_nil_right (intDec_ne_nil i)]
+      unfold InI64 at hi
+      simp only [intKey, icmp]; rw [if_neg (by omega), if_neg (by omega)]
+    · exact cmp_int_int i j
+  | ts =>
+    refine tpo_of_key intKey ?_
+    rintro a b (rfl | ⟨i, rfl, hi⟩) (rfl | ⟨j, rfl, hj⟩)
+    · rw [cmp_null_null]; simp [intKey]
+    · rw [cmp_null_left, SV.toStringRepr, cmpBytes_nil_left (intDec_ne_nil j)]
+      unfold InI64 at hj
+      simp only [intKey, icmp]; rw [if_pos (by omega)]
+    · rw [cmp_null_right, SV.toStringRepr, cmpBytes_nil_right (intDec_ne_nil i)]
+      unfold InI64 at hi
+      simp only [intKey, icmp]; rw [if_neg (by omega), if_neg (by omega)]
+    · exact cmp_ts_ts i j
+  | float =>
+    refine tpo_of_key intKey ?_
+    rintro a b (rfl | ⟨x, rfl, hx⟩) (rfl | ⟨y, rfl, hy⟩)
+    · rw [cmp_null_null]; simp [intKey]
+    · rw [cmp_null_left, SV.toStringRepr, cmpBytes_nil_left (f64ToString_ne_nil y)]
+      have := fKey_bound y
+      simp only [intKey, icmp]; rw [if_pos (by omega)]
+    · rw [cmp_null_right, SV.toStringRepr, cmpBytes_nil_right (f64ToString_ne_nil x)]
+      have := fKey_bound x
+      simp only [intKey, icmp]; rw [if_neg (by omega), if_neg (by omega)]
+    · exact cmp_float_float x y hx hy
+  | bool =>
+    refine tpo_of_key intKey ?_
+    rintro a b (rfl | ⟨x, rfl⟩) (rfl | ⟨y, rfl⟩)
+    · rw [cmp_null_null]; simp [intKey]
+    · cases y <;> decide
+    · cases x <;> decide
+    · exact cmp_bool_bool x y
+  | plainStr =>
+    refine tpo_of_bytes_key strKey ?_
+    rintro a b (rfl | ⟨s, rfl, hs⟩) (rfl | ⟨t, rfl, ht⟩)
+    · rfl
+    · rw [cmp_null_left]; rfl
+    · rw [cmp_null_right]; rfl
+    · exact cmp_str_str s t hs ht
+
+
+/-! ## Unordered LIMIT / OFFSET -/
+
+section Unordered
+variable {β : Type}
+
+theorem nodup_map_some (l : List Nat) (h : l.Nodup) : (l.map some).Nodup :=
+  List.Pairwise.map some (fun _ _ hab hc => hab (Option.some.inj hc)) h
+
+/-- Facts about `dedupById` when every row carries an id. -/
+theorem dedup_facts : ∀ (rows : List (Option Nat × β)) (seen : List Nat),
+    (∀ r ∈ rows, ∃ i, r.1 = some i) →
+    ((dedupById seen rows).map (·.1)).Nodup ∧
+    (∀ r ∈ dedupById seen rows, r ∈ rows ∧ ∀ i, r.1 = some i → i ∉ seen) ∧
+    (∀ r ∈ rows, ∀ i, r.1 = some i → i ∈ seen ∨ some i ∈ (dedupById seen rows).map (·.1)) := by
+  intro rows
+  induction rows with
+  | nil => intro seen _; simp [dedupById]
+  | cons r rs ih =>
+    intro seen hall
+    obtain ⟨i, hi⟩ := hall r (by simp)
+    have hrs : ∀ r ∈ rs, ∃ i, r.1 = some i := fun x hx => hall x (by simp [hx])
+    simp only [dedupById, hi]
+    by_cases hc : seen.contains i = true
+    · simp only [hc, if_true]
+      obtain ⟨h1, h2, h3⟩ := ih seen hrs
+      refine ⟨h1, fun x hx => ⟨List.mem_cons_of_mem _ (h2 x hx).1, (h2 x hx).2⟩, ?_⟩
+      intro x hx j hj
+      rcases List.mem_cons.mp hx with rfl | hx
+      · rw [hi] at hj; cases hj; left; simpa using hc
+      · exact h3 x hx j hj
+    · simp only [hc, Bool.false_eq_true, if_false]
+      obtain ⟨h1, h2, h3⟩ := ih (i :: seen) hrs
+      have hni : i ∉ seen := by simpa using hc
+      refine ⟨?_, ?_, ?_⟩
+      · simp only [List.map_cons, List.nodup_cons]
+        refine ⟨?_, h1⟩
+        intro hmem
+        obtain ⟨x, hx, hxe⟩ := List.mem_map.mp hmem
+        exact (h2 x hx).2 i (by rw [hxe, hi]) (by simp)
+      · intro x hx
+        rcases List.mem_cons.mp hx with rfl | hx
+        · exact ⟨by simp, fun j hj => by rw [hi] at hj; cases hj; exact hni⟩
+        · exact ⟨List.mem_cons_of_mem _ (h2 x hx).1, fun j hj hjs => (h2 x hx).2 j hj (by simp [hjs])⟩
+      · intro x hx j hj
+        rcases List.mem_cons.mp hx with rfl | hx
+        · rw [hi] at hj; cases hj; right; simp [hi]
+        · rcases h3 x hx j hj with h | h
+          · rcases List.mem_cons.mp h with rfl | h
+            · right; simp [hi]
+            · left; exact h
+          · right; simp only [List.map_cons, List.mem_cons]; right; exact h
+
+/-- Unordered LIMIT n OFFSET m: every flow delivers at most `n+m` matching rows (each event at
+most once per flow), the coordinator forwards them in any arrival order, the response writer
+dedups by id, skips `m`, emits `n`. The response then holds `min n (d - m)` rows, where `d` is
+the number of distinct matching events; they are matching rows with pairwise different ids. -/
+theorem unordered_limit (n m : Nat) (flows : List (List (Nat × β)))
+    (hnd : ∀ f ∈ flows, (f.map (·.1)).Nodup)
+    (arrived : List (Nat × β)) (harr : arrived.Perm (flows.map (·.take (n + m))).flatten)
+    (dist : List Nat) (hdn : dist.Nodup) (hdist : ∀ i, i ∈ dist ↔ ∃ r ∈ flows.flatten, r.1 = i) :
+    let out := acceptRows (some n) (some m) {} (arrived.map fun r => ((some r.1 : Option Nat), r.2))
+    (out.map (·.1)).Nodup ∧
+    (∀ r ∈ out, ∃ x ∈ flows.flatten, r = (some x.1, x.2)) ∧
+    out.length = min n (dist.length - m) := by
+  intro out
+  let rows : List (Option Nat × β) := arrived.map fun r => ((some r.1 : Option Nat), r.2)
+  have hrows : ∀ r ∈ rows, ∃ i, r.1 = some i := by
+    intro r hr
+    obtain ⟨x, _, rfl⟩ := List.mem_map.mp hr
+    exact ⟨x.1, rfl⟩
+  obtain ⟨d1, d2, d3⟩ := dedup_facts rows [] hrows
+  have hout : out = ((dedupById [] rows).drop m).take n := by
+    show acceptRows (some n) (some m) {} rows = _
+    rw [acceptRows_spec]; rfl
+  have hsub : out.Sublist (dedupById [] rows) := by
+    rw [hout]; exact (List.take_sublist _ _).trans (List.drop_sublist _ _)
+  have harr_mem : ∀ x ∈ arrived, x ∈ flows.flatten := by
+    intro x hx
+    have := harr.subset hx
+    simp only [List.mem_flatten, List.mem_map] at this ⊢
+    obtain ⟨l, ⟨f, hf, rfl⟩, hxl⟩ := this
+    exact ⟨f, hf, List.mem_of_mem_take hxl⟩
+  have hDmem : ∀ r ∈ dedupById [] rows, ∃ x ∈ flows.flatten, r = (some x.1, x.2) := by
+    intro r hr
+    obtain ⟨x, hx, rfl⟩ := List.mem_map.mp (d2 r hr).1
+    exact ⟨x, harr_mem x hx, rfl⟩
+  refine ⟨d1.sublist (hsub.map _), fun r hr => hDmem r (hsub.subset hr), ?_⟩
+  -- length
+  have hle : (dedupById [] rows).length ≤ dist.length := by
+    have h1 : ((dedupById [] rows).map (·.1)).length ≤ (dist.map some).length := by
+      apply d1.length_le_of_subset
+      intro o ho
+      obtain ⟨r, hr, rfl⟩ := List.mem_map.mp ho
+      obtain ⟨x, hx, rfl⟩ := hDmem r hr
+      exact List.mem_map.mpr ⟨x.1, (hdist x.1).mpr ⟨x, hx, rfl⟩, rfl⟩
+    simpa using h1
+  have hge : min (n + m) dist.length ≤ (dedupById [] rows).length := by
+    by_cases hbig : ∃ f ∈ flows, n + m ≤ f.length
+    · obtain ⟨f, hf, hlen⟩ := hbig
+      have hnd' : (((f.take (n + m)).map (·.1)).map some).Nodup :=
+        nodup_map_some _ ((hnd f hf).sublist ((List.take_sublist _ _).map _))
+      have h1 : (((f.take (n + m)).map (·.1)).map some).length ≤ ((dedupById [] rows).map (·.1)).length := by
+        apply hnd'.length_le_of_subset
+        intro o ho
+        simp only [List.map_map, List.mem_map, Function.comp_def] at ho
+        obtain ⟨x, hx, rfl⟩ := ho
+        have hxa : x ∈ arrived := by
+          apply harr.symm.subset
+          simp only [List.mem_flatten, List.mem_map]
+          exact ⟨f.take (n + m), ⟨f, hf, rfl⟩, hx⟩
+        have hxr : ((some x.1 : Option Nat), x.2) ∈ rows := List.mem_map.mpr ⟨x, hxa, rfl⟩
+        rcases d3 _ hxr x.1 rfl with h | h
+        · cases h
+        · exact h
+      simp only [List.length_map, List.length_take] at h1
+      omega
+    · have hall : ∀ f ∈ flows, f.take (n + m) = f := by
+        intro f hf
+        apply List.take_of_length_le
+        apply Nat.le_of_lt
+        apply Nat.lt_of_not_le
+        intro h; exact hbig ⟨f, hf, h⟩
+      have hflat : (flows.map (·.take (n + m))) = flows := by
+        conv => rhs; rw [← List.map_id flows]
+        exact List.map_congr_left (fun f hf => by simpa using hall f hf)
+      rw [hflat] at harr
+      have h1 : (dist.map some).length ≤ ((dedupById [] rows).map (·.1)).length := by
+        apply (nodup_map_some _ hdn).length_le_of_subset
+        intro o ho
+        obtain ⟨i, hi, rfl⟩ := List.mem_map.mp ho
+        obtain ⟨x, hx, rfl⟩ := (hdist i).mp hi
+        have hxa : x ∈ arrived := harr.symm.subset hx
+        have hxr : ((some x.1 : Option Nat), x.2) ∈ rows := List.mem_map.mpr ⟨x, hxa, rfl⟩
+        rcases d3 _ hxr x.1 rfl with h | h
+        · cases h
+        · exact h
+      simp only [List.length_map] at h1
+      omega
+  rw [hout, List.length_take, List.length_drop]
+  omega
+
+end Unordered
+
 end Snel.Order
